@@ -93,11 +93,14 @@ def real_equation_line(s):
 
 def compile_outcome(code):
     """What parse_model's syntax check observes for one generated statement: ok se ce sw ow ox (+ exception class)."""
+    import textwrap
     import warnings
+    # 1847a2f: the check compiles the code as build_model embeds it — indented, inside a method body, followed by `pass`
+    wrapped = 'def _evaluate(self, t):\n' + textwrap.indent(code, '    ') + '\n    pass'
     with warnings.catch_warnings(record=True) as w:
         warnings.simplefilter('always')
         try:
-            compile(code, '<string>', 'exec')
+            compile(wrapped, '<string>', 'exec')
         except SyntaxError:
             return 'se', None
         except (ValueError, RecursionError, MemoryError, OverflowError):
